@@ -120,9 +120,25 @@ func checkDateCore(y, m, d int) (site, msg string) {
 
 var apiCounter int
 
+// apiCfg cycles through client configurations that must not matter to any decoded date: unconfigured / configured
+// controller (with and without address, literal or NewDevice), every kind of configured controller time zone, debug output.
+func apiCfg() hook.ClientCfg {
+	apiCounter++
+	k := apiCounter
+	tz := []string{"", "nil", "Local", "UTC", "+03:00", "-08:00", "+05:45", "Asia/Tokyo", "America/New_York", "Pacific/Apia", "America/Santiago"}[k%11]
+	cfg := hook.ClientCfg{Debug: k%5 == 0}
+	switch k % 3 {
+	case 1:
+		cfg.Devices = []hook.DeviceCfg{{Name: "A", Serial: 405419896, HasAddr: true, IP: [4]byte{10, 0, 0, 1}, Port: 60000, Protocol: "udp", TZ: tz, ViaNew: k%2 == 0}}
+	case 2:
+		cfg.Devices = []hook.DeviceCfg{{Name: "A", Serial: 405419896, TZ: tz, ViaNew: k%2 == 0}}
+	}
+	return cfg
+}
+
 func checkDateAPI(y, m, d int) (site, msg string) {
 	text := fmt.Sprintf("%04d-%02d-%02d", y, m, d)
-	u, drv := hook.Mem(hook.ClientCfg{})
+	u, drv := hook.Mem(apiCfg())
 	l := spec.Responses["GetCardByIndex"]
 	b := make([]byte, 64)
 	spec.Header(b, 0x17, l.Code, 405419896)
@@ -206,7 +222,7 @@ func checkDateTimeCore(c dCase) (site, msg string) {
 		return "types.DateTime.String", fmt.Sprintf("date-time %s prints as %q", text, s)
 	}
 	// through the API: GetTime, GetEvent and the status (event timestamp + system date/time)
-	u, drv := hook.Mem(hook.ClientCfg{})
+	u, drv := hook.Mem(apiCfg())
 	b := make([]byte, 64)
 	spec.Header(b, 0x17, 0x32, 405419896)
 	copy(b[8:], wire)
@@ -488,16 +504,19 @@ func TestReplay(t *testing.T) { rp.ReplayAll(t, props()...) }
 
 // Child-process confirmation with a real TZ environment -----------------------------------------------
 
+// childOut: the real standard output (the harness mutes os.Stdout once a client has been built)
+var childOut = os.Stdout
+
 func child() int {
 	var cases []dCase
 	if err := json.Unmarshal([]byte(os.Getenv("VERIF_CHILD_CASES")), &cases); err != nil {
-		fmt.Println("CHILD-HARNESS-ERROR", err)
+		fmt.Fprintln(childOut, "CHILD-HARNESS-ERROR", err)
 		return 2
 	}
 	bad := 0
 	for _, c := range cases {
 		if time.Local.String() != "Local" && time.Local.String() != c.Zone {
-			fmt.Println("CHILD-HARNESS-ERROR unexpected time.Local", time.Local)
+			fmt.Fprintln(childOut, "CHILD-HARNESS-ERROR unexpected time.Local", time.Local)
 			return 2
 		}
 		var site, msg string
@@ -518,11 +537,11 @@ func child() int {
 		}
 		if site != "" {
 			b, _ := json.Marshal(c)
-			fmt.Printf("CHILD-FAIL\t%s\t%s\t%s\n", site, b, msg)
+			fmt.Fprintf(childOut, "CHILD-FAIL\t%s\t%s\t%s\n", site, b, msg)
 			bad++
 		}
 	}
-	fmt.Printf("CHILD-DONE %d cases, %d failures\n", len(cases), bad)
+	fmt.Fprintf(childOut, "CHILD-DONE %d cases, %d failures\n", len(cases), bad)
 	return 0
 }
 
